@@ -230,6 +230,9 @@ func init() {
 	reg("bufio.NewWriterSize", mkBufW)
 	bufWrite := func(m *Machine, fn *ssa.Function, a []Value) Value {
 		bw, _ := a[0].(*Ext)
+		if bw != nil {
+			m.logAccess(true, bw, "bufio.Writer write")
+		}
 		var n Value = int64(0)
 		if bw != nil {
 			if f := fileOf(bw.F["w"]); f != nil {
@@ -247,7 +250,12 @@ func init() {
 	}
 	reg("(*bufio.Writer).Write", bufWrite)
 	reg("(*bufio.Writer).WriteString", bufWrite)
-	reg("(*bufio.Writer).Flush", func(m *Machine, fn *ssa.Function, a []Value) Value { return nilErr() })
+	reg("(*bufio.Writer).Flush", func(m *Machine, fn *ssa.Function, a []Value) Value {
+		if bw, ok := a[0].(*Ext); ok && bw != nil {
+			m.logAccess(true, bw, "bufio.Writer flush")
+		}
+		return nilErr()
+	})
 	reg("(*bufio.Writer).WriteByte", func(m *Machine, fn *ssa.Function, a []Value) Value { return nilErr() })
 	reg("(*bufio.Writer).Buffered", func(m *Machine, fn *ssa.Function, a []Value) Value { return int64(0) })
 
